@@ -26,19 +26,19 @@ Definition regex_sites : list re_site := [
   (* interp/interp.go:43 *)
   mkReSite "interp" "interp.go" "(package variable)" "MustCompile" "`^([_a-zA-Z][_a-zA-Z0-9]*)=(.*)`"
     (TPkgVar "varRegex") false [] false;
-  (* interp/interp.go:862 *)
+  (* interp/interp.go:872 *)
   mkReSite "interp" "interp.go" "setSpecial" "Compile" "compiler.AddRegexFlags(p.fieldSep)"
     (TLocal "re") true [] true;
-  (* interp/interp.go:882 *)
+  (* interp/interp.go:892 *)
   mkReSite "interp" "interp.go" "setSpecial" "MustCompile" "sep"
     (TField "p.recordSepRegex") true [] true;
-  (* interp/interp.go:887 *)
+  (* interp/interp.go:897 *)
   mkReSite "interp" "interp.go" "setSpecial" "MustCompile" "sep"
     (TField "p.recordSepRegex") true [] true;
-  (* interp/interp.go:890 *)
+  (* interp/interp.go:900 *)
   mkReSite "interp" "interp.go" "setSpecial" "Compile" "compiler.AddRegexFlags(p.recordSep)"
     (TLocal "re") true [] true;
-  (* interp/interp.go:1051 *)
+  (* interp/interp.go:1061 *)
   mkReSite "interp" "interp.go" "compileRegex" "Compile" "compiler.AddRegexFlags(regex)"
     (TLocal "re") true [] true;
   (* internal/compiler/compiler.go:1107 *)
